@@ -20,7 +20,7 @@ spin chain strongly coupled to its environment*, arXiv:2201.05529 (2022).
 
 """
 
-import concurrent
+import concurrent.futures
 from typing import Dict, List, Tuple
 
 import numpy as np
